@@ -77,7 +77,9 @@ class SynchronousDeferredRunTest(_DeferredRunTest):
     def _run_user(self, function, /, *args, **kwargs):
         # Cleanups are run through here with the keyword arguments they were
         # registered with.
-        d = defer.maybeDeferred(function, *args, **kwargs)
+        # (Called through a closure: maybeDeferred(function, *args, **kwargs)
+        # would claim a keyword argument that happens to be named 'f'.)
+        d = defer.maybeDeferred(lambda: function(*args, **kwargs))
         d.addErrback(self._got_user_failure)
         result = extract_result(d)
         return result
